@@ -15,9 +15,12 @@ var schedFiles = map[string]instr.SchedConfig{
 	"internal/dag/graph_walker.go": {MapRanges: []string{"w.graph.nodes"},
 		Access: map[string]string{"w.nodeInfoMap[": "Walker.nodeInfoMap", "w.completions[": "Walker.completions"}},
 	"internal/worker/task_worker_pool.go":            {AtomicPoints: true},
-	"internal/maps/mutex_map.go":                     {},
+	"internal/maps/mutex_map.go":                     {AtomicPoints: true},
 	"internal/output/handlers/dir_output_handler.go": {ChanRanges: []string{"errChan"}},
 	"internal/caching/backends/remote_wrapper.go":    {ChanRanges: []string{"errChan"}},
+	// the registry's own locks become scheduling points: the completion order of its pool tasks is then explored
+	// even where the tasks never touch the cache backend (GetNoCacheOutputHash)
+	"internal/output/registry.go": {},
 }
 
 // schedOverlay instruments the given repo files (vc.SourceFor honours
@@ -109,6 +112,33 @@ func poolCheck(c *Ctx, prop string, sigPrefixes []string) {
 	}
 	sub := vc.NewReport(prop, c.Tier)
 	vc.RunHarnessShards(sub, vc.HarnessRun{Bin: bin, Env: map[string]string{"VERIF_TIER": c.Tier, "VERIF_BOUND": bound, "VERIF_BUDGET_S": budget, "GOMAXPROCS": "1"}, Tag: "pool-" + prop}, 16, 16)
+	c.R.Merge(sub, func(sig string) bool {
+		for _, p := range sigPrefixes {
+			if strings.HasPrefix(sig, p) {
+				return true
+			}
+		}
+		return false
+	})
+}
+
+// mutexMapCheck: the per-target locks (maps.MutexMap) alone under every schedule with a bounded number of deviations.
+func mutexMapCheck(c *Ctx, prop string, sigPrefixes []string) {
+	ov := schedOverlay(c, "sched-mutexmap", []string{"internal/maps/mutex_map.go"}, []string{"mutexmap"})
+	if ov == nil {
+		return
+	}
+	bin, err := vc.BuildHarnessTest("mutexmap", ov, "mutexmap", false)
+	if err != nil {
+		c.R.BrokenCheck("%v", err)
+		return
+	}
+	bound, budget := "3", "20"
+	if c.Thorough {
+		bound, budget = "5", "200"
+	}
+	sub := vc.NewReport(prop, c.Tier)
+	vc.RunHarnessShards(sub, vc.HarnessRun{Bin: bin, Env: map[string]string{"VERIF_TIER": c.Tier, "VERIF_BOUND": bound, "VERIF_BUDGET_S": budget, "GOMAXPROCS": "1"}, Tag: "mutexmap-" + prop}, 8, 8)
 	c.R.Merge(sub, func(sig string) bool {
 		for _, p := range sigPrefixes {
 			if strings.HasPrefix(sig, p) {
